@@ -909,6 +909,26 @@ func (w *worker) checkOrder(c *selCase, text, kinds string, raw []byte) {
 				w.viol("C07", "order-differs", text, snap(doc), fmt.Sprintf("map built with insertion order #%d, evaluation %d: want %s got %s", mo, rep, expString(c.Res), r), fmt.Sprintf("keys=%d", nkeys), raw)
 				return
 			}
+			// the same order when the results are read through accessors (one accessor per selected member, each
+			// bound to ITS member)
+			if rep == 1 || rep == 6 {
+				acfg := jsonpath.Config{}
+				acfg.SetAccessorMode()
+				if pa := safeParse(text, &acfg); pa.Err == nil && pa.Panic == nil {
+					ra := safeCall(pa.F, doc)
+					w.count("C07:evaluations-through-accessors", 1)
+					if ra.Panic == nil && ra.Err == nil && c.Res.Ok {
+						got, gp := func() (vs []interface{}, p interface{}) {
+							defer func() { p = recover() }()
+							return plainVals(ra.Vals), nil
+						}()
+						if gp == nil && !valsMatch(c.Res.Vals, got) {
+							w.viol("C07", "order-differs", text+" (read through accessors)", snap(doc), fmt.Sprintf("map built with insertion order #%d, evaluation %d: want %s, the accessors read %s", mo, rep, expString(c.Res), snap(got)), fmt.Sprintf("keys=%d", nkeys), raw)
+							return
+						}
+					}
+				}
+			}
 			// recycle the pooled key buffers: alternately a foreign object and a NARROWER sub-object of this
 			// document (its larger keys only), so that a stale buffer holds keys that all belong to the document
 			if rep%2 == 0 && decoy.F != nil {
